@@ -39,3 +39,16 @@ claim("C18", "exploration",
       "Histories of Write/Read/ReadMultipleOf/ReadAll/DiscardStride on a real shared-memory ring (separate writer and reader handles), sizes 2..4096, operation sizes around the full/empty boundaries; every byte identifies its stream position and reads are compared with a reference byte queue (no skip, repeat, reorder; multiples; stride boundary; pointer never moves backwards).",
       "Single-threaded histories (the property is about sequences of calls); chunk/stride 0 is outside the API domain. Thorough runs under the race build (checkptr on the mmap descriptor).",
       "reference byte-queue oracle over recorded operation histories; checkptr in thorough", "DESIGN.md §3 C18")
+
+claim("C05", "exploration",
+      "After every STOP each LJH2.2/LJH3/OFF file produced through the real WriteControl/PublishData path (random geometry, identity, sub-frame parameters, projector subsets, pause/unpause, 1-3 records per channel and block) is parsed by decoders written from the format documents and compared with the channel's true parameters and the exact sequence of records accepted while active and unpaused; the writers' public API is also driven directly with extreme lengths, frame counts, timestamps and floats. File size must equal header plus whole records.",
+      "The independent decoders are the trusted base. The LJH3 first-rising field may be presamples or presamples+1. Disk-stall behaviour is C07's subject.",
+      "independent format decoders over bytes on disk vs. records tapped at the publish channel", "DESIGN.md §3 C05")
+claim("C06", "exploration",
+      "Histories of START (all type subsets)/STOP/PAUSE/UNPAUSE/labelled and malformed requests, biased to redundant and illegal orders, interleaved with record-producing blocks: reply class and reported state are compared with an executable state machine after every request; directories must be newly created and consecutively numbered; after STOP files are decoded and must hold exactly the records published while the model said active and unpaused, for every enabled type and eligible channel; /proc/self/fd must show nothing open below the directory.",
+      "The state machine is written from the statement; PAUSE/UNPAUSE while inactive are accepted flag changes. Requests are applied through AnySource.WriteControl (what the RPC layer queues).",
+      "executable state-machine model + decoded file contents + /proc/self/fd census", "DESIGN.md §3 C06")
+claim("C20", "exploration",
+      "Histories mixing blocks that carry external-trigger counts and drop counts with START/STOP/PAUSE/UNPAUSE/label requests over several sessions; after each STOP the external-trigger, data-drop and experiment-state files are parsed and compared with the harness's event log (exactly once, in order, nothing from inactive periods or earlier sessions, START first and STOP last with monotone timestamps, nothing left open).",
+      "The event log kept by the harness is the reference; pause does not suspend the run log (the statement says 'while writing is active').",
+      "event-log vs file-content oracle (exactly-once, ordering) over recorded histories", "DESIGN.md §3 C20")
